@@ -49,6 +49,7 @@ pub struct Agg {
     pub failures: Vec<Failure>,
     pub validated: u64,
     pub model_queries: u64,
+    pub aux: Vec<String>,
 }
 
 fn fails(o: &Outcome) -> bool { o.oracle_fail.is_some() || o.disagreement.is_some() }
@@ -69,11 +70,12 @@ pub fn run_prop(p: &dyn Prop, cases: Vec<Case>, threads: usize) -> Agg {
                     let o = p.run(c, &mut m);
                     let mut fl: Option<Failure> = None;
                     if fails(&o) {
+                        let do_shrink = agg.lock().unwrap().failures.len() < 4;
                         // shrink: greedily accept smaller failing variants
                         let mut cur = c.clone();
                         let mut cur_o = o.clone();
                         let mut rounds = 0;
-                        'outer: while rounds < 40 {
+                        'outer: while do_shrink && rounds < 40 {
                             rounds += 1;
                             for cand in p.shrink(&cur) {
                                 let oc = p.run(&cand, &mut m);
@@ -93,7 +95,7 @@ pub fn run_prop(p: &dyn Prop, cases: Vec<Case>, threads: usize) -> Agg {
                     a.evaluations += 1;
                     a.validated += o.validated;
                     if let Some(k) = &o.nontrivial { a.nontrivial.insert(k.clone()); }
-                    for t in &o.tags { *a.dist.entry(t.clone()).or_insert(0) += 1; }
+                    for t in &o.tags { if let Some(x) = t.strip_prefix('@') { a.aux.push(x.to_string()); } else { *a.dist.entry(t.clone()).or_insert(0) += 1; } }
                     if i % sample_every == 0 && a.samples.len() < 8 {
                         a.samples.push(JObj::new().raw("case", case_json(c)).s("impl", &shorten(&o.impl_obs)).s("model", &shorten(&o.model_obs)).render());
                     }
@@ -116,5 +118,5 @@ pub fn render(p: &dyn Prop, tier: &str, seed: u64, a: &Agg, wall: f64) -> String
     JObj::new().s("property", p.id()).s("tier", tier).n("seed", seed).n("evaluations", a.evaluations)
         .n("distinct_nontrivial", a.nontrivial.len() as u64).s("rule", &p.rule()).raw("distribution", jmap(&a.dist))
         .raw("samples", jarr(&a.samples)).n("traces_validated_against_impl", a.validated).n("model_queries", a.model_queries)
-        .raw("failures", jarr(&fails)).raw("wall_s", format!("{:.2}", wall)).render()
+        .raw("aux", jarr(&a.aux.iter().map(|x| jstr(x)).collect::<Vec<_>>())).raw("failures", jarr(&fails)).raw("wall_s", format!("{:.2}", wall)).render()
 }
